@@ -24,6 +24,18 @@ CHECKS = {
          'runtime monitor: post-condition + tail-structure analysis of decoded codewords', '6 C13'),
  'C14': ('Thousands of argument vectors from domain tables (all documented spellings and boundary junk) for make/make_qr/make_micro/make_sequence with an exception-class monitor and a model of excluded combinations, spelling pairs compared by matrix, serialiser refusals, CLI subprocesses compared with the library message.',
          'runtime monitor: exception-class monitor + combination model + differential spelling pairs + CLI subprocess observation', '6 C14'),
+ 'C09': ('Renders over all symbol sizes, kinds (png, pbm P4/P1, pam, ppm, xbm, xpm, txt, ans, compact), scales, borders and colour forms are parsed by independent format readers (container well-formedness incl. PNG chunk CRCs / zlib stream length / filters / palette, Netpbm headers and raster lengths) and compared pixel by pixel / cell by cell with the grid predicted from the matrix; scale < 1 must be refused.',
+         'runtime monitor: independent format readers as oracle over rendered bytes', '6 C09'),
+ 'C10': ('SVG, EPS, PDF and TikZ documents over sizes x fractional scales x borders x colours x SVG options are interpreted by independent mini-interpreters (XML, PostScript tokens, PDF objects/xref/inflate/content operators, PGF); the stroked segments are rasterised on the module grid after applying the document transforms and compared with the dark modules; page box, colours, opacity, background, PDF /Length and xref offsets are checked.',
+         'runtime monitor: mini-interpreters + rasterisation oracle over emitted documents', '6 C10'),
+ 'C11': ('matrix_iter plain and verbose over every module of all 44 symbol sizes (exhaustive in every run) against the independent function-pattern map and documented type codes; invalid border/scale -> ValueError; colourful PNG/SVG/PPM with random per-type colour subsets (incl. two-colour configurations against the dark/light split) compared per pixel / per cell with the configured type colour. One pinned deviation ((8, size-9) typed as format) is a classified known finding.',
+         'runtime monitor: exhaustive module enumeration + type-map oracle + format readers', '6 C11'),
+ 'C12': ('For each option set every applicable output route (path lower/upper case, streams, svgz, data URIs, svg_inline, cli.main in-process and subprocess) is executed and an offline checker requires byte-identical documents (timestamps blanked); CLI terminal output vs QRCode.terminal; sequence file names and contents with an open() audit hook; unknown extensions refused.',
+         'runtime monitor: differential route log + offline equality checker + audit hook', '6 C12'),
+ 'C15': ('A recorded call list is executed in fresh subprocesses (golden), then in shuffled/repeated histories and from 8 threads (barrier-started first use of each size, free running, seeded yield injection via sys.monitoring LINE events, switch interval 1e-6); fingerprints must equal golden; module tables, arguments and previously returned symbols are fingerprinted before/after; idempotence pairs. Evidence reports overlapping call pairs and injected yields.',
+         'runtime monitor: golden-log comparison under history and schedule stress + state fingerprints', '6 C15'),
+ 'C16': ('Payloads of the WIFI, MeCard, vCard, geo, mailto and EPC builders with adversarial values are parsed back by small independent parsers and compared with the supplied fields; EPC limits (accept in-limit, refuse out-of-limit), amount by exact Decimal arithmetic, charset, length, level/version; factory symbols pass the C01 decoder post-condition with exactly the payload.',
+         'runtime monitor: parse-back oracles + C01 post-condition on factory symbols', '6 C16'),
 }
 NOTE = 'Trusted base: /verif/refmodel (independent model/decoder and format readers), CPython codecs/zlib/xml. Held means held on the executions listed in the evidence file.'
 def main():
